@@ -378,11 +378,12 @@ async fn rex(w: Arc<World>, mut conn: ServerConn, p: Arc<Plan>, sh: Arc<Mutex<Sh
                 sends.push((spec.delay_ms + u64::from(w.draw(20)), from.clone(), content(nonce())));
             }
             "unknown_pid" => {
-                // nobody's identifier: far away, or differing from the caller's in one field only
+                // nobody's identifier, now or later in this run (a run wraps the counter a few dozen times at most):
+                // far away, or differing from the caller's in one field only
                 let ghost = match &from {
                     Val::Pid { node, id, serial, creation } => match w.draw(3) {
                         0 => Val::Pid { node: node.clone(), id: id.wrapping_add(500_000), serial: *serial, creation: *creation },
-                        1 => Val::Pid { node: node.clone(), id: *id, serial: serial.wrapping_add(7), creation: *creation },
+                        1 => Val::Pid { node: node.clone(), id: *id, serial: serial.wrapping_add(1000), creation: *creation },
                         _ => Val::Pid { node: node.clone(), id: *id, serial: *serial, creation: creation.wrapping_add(1) },
                     },
                     other => other.clone(),
@@ -624,7 +625,8 @@ fn evaluate(w: &Arc<World>, p: &Plan, sh: &Arc<Mutex<Shared>>) {
             (None, "RpcTimeout") => {
                 w.stat("probe.c17.timeout");
                 if let Some(req) = req {
-                    let early: Vec<&Rep> = g.reps.iter().filter(|x| x.to == req.from && x.t_sent + m <= r.t1.saturating_sub(m)).collect();
+                    // (a reply written before the call began cannot have been meant for it)
+                    let early: Vec<&Rep> = g.reps.iter().filter(|x| x.to == req.from && x.t_sent >= r.t0 && x.t_sent + m <= r.t1.saturating_sub(m)).collect();
                     if !early.is_empty() && !fault_before {
                         w.violation("timeout-despite-reply", format!("caller {} call {} timed out at {}ms although the peer wrote its reply at {}ms (margin {}ms)", r.caller, r.idx, r.t1, early[0].t_sent, m));
                     }
